@@ -225,11 +225,17 @@ func (m *nodeMonitor) check() {
 			rm := m.rd(e.h, e.r)
 			switch e.a {
 			case "prevote":
+				if rm.prevoteSigned {
+					o.violate("C08", "second-prevote-in-round", fmt.Sprintf("the state machine acted on a second prevote choice in %d/%d (it signed a prevote again in the same round and process lifetime)", e.h, e.r))
+				}
 				rm.prevoteSigned = true
 				if rm.prevoteAnswer == nil || *rm.prevoteAnswer != e.hash {
 					o.violate("C08", "prevote-target-not-chosen-by-strategy", fmt.Sprintf("prevote for %s in %d/%d does not match the strategy's answer", h8([]byte(e.hash)), e.h, e.r))
 				}
 			case "precommit":
+				if rm.precommitSigned {
+					o.violate("C08", "second-precommit-in-round", fmt.Sprintf("the state machine acted on a second precommit decision in %d/%d", e.h, e.r))
+				}
 				rm.precommitSigned = true
 				if rm.precommitAnswer == nil || *rm.precommitAnswer != e.hash {
 					o.violate("C08", "precommit-target-not-chosen-by-strategy", fmt.Sprintf("precommit for %s in %d/%d does not match the strategy's answer", h8([]byte(e.hash)), e.h, e.r))
@@ -333,9 +339,35 @@ func (m *nodeMonitor) entrance(h uint64, r uint32, viaStore bool) {
 	_ = viaStore
 }
 
+// actionRecordsKept: every vote the local validator signed stays recorded in the action store (C02: the record is what
+// protects against a second signature after a restart).
+func (m *nodeMonitor) actionRecordsKept() {
+	n, o := m.n, m.o
+	if !o.on["C02"] {
+		return
+	}
+	for _, e := range n.trace {
+		if e.kind != "astore" || e.x != "<nil>" || (e.a != "prevote" && e.a != "precommit") {
+			continue
+		}
+		ra, err := n.st.as.LoadActions(context.Background(), e.h, e.r)
+		ok := err == nil
+		if ok && e.a == "prevote" {
+			ok = ra.PrevoteSignature != "" && ra.PrevoteTarget == e.hash
+		}
+		if ok && e.a == "precommit" {
+			ok = ra.PrecommitSignature != "" && ra.PrecommitTarget == e.hash
+		}
+		if !ok {
+			o.violate("C02", "recorded-vote-lost-from-action-store:"+e.a, fmt.Sprintf("the %s for %d/%d target %s was saved to the action store at step %d but the store no longer holds it", e.a, e.h, e.r, h8([]byte(e.hash)), e.step))
+		}
+	}
+}
+
 // quiescent evaluates C12(a) and the liveness half of C08(4) at a quiescent point.
 func (m *nodeMonitor) quiescent() {
 	n, o, w := m.n, m.o, m.n.w
+	m.actionRecordsKept()
 	if n.e == nil {
 		return
 	}
